@@ -33,6 +33,7 @@ def run(rep, tier):
         search.check_combine_types(rep_, prog)
         from . import c16
         c16.shared(rep_, prog, rules=('R16b', 'R16c', 'R16h'))
+        c14.check_no_candidate_removed(rep_, prog)
         # root weight of the shortest-path trees (candidate sort keys): shared with C14
         sub14 = type(rep_)(rep_.prop, rep_.tier)
         c14.check_program(sub14, prog)
